@@ -430,6 +430,10 @@ impl ClientModel {
                     self.finish(e, true);
                     return;
                 }
+                MCmd::SetDecode if self.session_only && !self.enabled => {
+                    self.finish(e, false);
+                    return;
+                }
                 MCmd::SetDecode => {}
                 MCmd::Enable => {
                     if !self.enabled {
@@ -442,10 +446,6 @@ impl ClientModel {
                 MCmd::Disable if self.session_only => {
                     // the loop ends with "disabled" whenever a setting leaves it disabled
                     self.enabled = false;
-                    self.finish(e, false);
-                    return;
-                }
-                MCmd::SetDecode if self.session_only && !self.enabled => {
                     self.finish(e, false);
                     return;
                 }
